@@ -47,7 +47,7 @@ theorem k4_ok (ek fk ctx tx ok denom baseFee fees err fee tip ok1 eff gas) (coin
     (h : duallane_CosmosTxFeeChecker.k4 ek fk ctx tx ok denom baseFee fees err fee tip ok1 eff gas = some (coins, p, none)) :
     coins = eff ∧ Admitted fk eff (Go.toI 64 ((gas : Nat) : Int)) := by
   unfold duallane_CosmosTxFeeChecker.k4 at h
-  obtain ⟨m, src, hm, hge⟩ := min_gas_price_ge ctx ({ BaseFee := fk.GetParams_BaseFee, MinGasPrice := fk.GetParams_MinGasPrice } : types_Params) denom
+  obtain ⟨m, src, hm, hge⟩ := min_gas_price_ge ctx ({ BaseFee := fk.GetParams_BaseFee, BaseFee_IsNil := fk.GetParams_BaseFee_IsNil, MinGasPrice := fk.GetParams_MinGasPrice, MinGasPrice_call_validateMinGasPrice := fk.GetParams_MinGasPrice_call_validateMinGasPrice } : types_Params) denom
   rw [hm] at h
   simp only [] at h
   cases hp : duallane_getTxPriority eff (Go.toI 64 ((gas : Nat) : Int)) m src with
@@ -197,7 +197,7 @@ theorem tie_eth_fee_checker_admits (ek : duallane_EvmKeeperForFeeChecker) (fk : 
                   | none => simp [h3] at h
                   | some c =>
                     simp only [h3] at h
-                    obtain ⟨m, src, hm, hge⟩ := min_gas_price_ge ctx ({ BaseFee := fk.GetParams_BaseFee, MinGasPrice := fk.GetParams_MinGasPrice } : types_Params) ek.GetParams_EvmDenom
+                    obtain ⟨m, src, hm, hge⟩ := min_gas_price_ge ctx ({ BaseFee := fk.GetParams_BaseFee, BaseFee_IsNil := fk.GetParams_BaseFee_IsNil, MinGasPrice := fk.GetParams_MinGasPrice, MinGasPrice_call_validateMinGasPrice := fk.GetParams_MinGasPrice_call_validateMinGasPrice } : types_Params) ek.GetParams_EvmDenom
                     rw [hm] at h
                     simp only [] at h
                     cases hp : duallane_getTxPriority (Go.newCoins1 c) (Go.toI 64 ((el.as_evmtypes_MsgEthereumTx_AsTransaction_Gas : Nat) : Int)) m src with
